@@ -187,7 +187,7 @@ def _discharge_text(ob, text, workdir, timeout, second_opinion=False, only_first
     for name, cmd in solvers:
         if name.startswith('cvc5') and '(lambda' in text:
             continue
-        budget = timeout if not getattr(r, 'candidate', None) else min(timeout, 20)
+        budget = timeout      # (a candidate model from the E-matching pass does not shorten the budget of the complete solvers)
         v, out, secs = run_solver(name, cmd, path, budget)
         r.tried.append((name, v, round(secs, 3)))
         r.seconds += secs
@@ -251,10 +251,14 @@ def discharge(obligations, axioms, timeout=10, jobs=None, second_opinion=False, 
     with ThreadPoolExecutor(max_workers=jobs) as ex:
         for i, r in enumerate(ex.map(first, range(len(obligations)))):
             results[i] = r
+    # a candidate answer ("incomplete") of the single first-pass solver is not a verdict: the obligation goes to the portfolio like an open one
+    for r in results:
+        if r.verdict == 'refuted' and getattr(r, 'candidate', None) and not any(v == 'sat' for _, v, _ in r.tried):
+            r.verdict = 'unknown'
     todo = [i for i, r in enumerate(results)
             if r.verdict in ('unknown',) or (second_opinion and r.verdict == 'discharged')]
     hard = [i for i in todo if results[i].verdict == 'unknown']
-    budget = timeout if len(hard) <= 24 else max(10, timeout // 4)
+    budget = timeout if len(hard) <= 60 else max(30, timeout // 2)
 
     # all z3-API work (not thread-safe) happens here in the main thread
     slice_texts = {}
@@ -282,6 +286,45 @@ def discharge(obligations, axioms, timeout=10, jobs=None, second_opinion=False, 
         with ThreadPoolExecutor(max_workers=jobs) as ex:
             for i, r in zip(todo, ex.map(second, todo)):
                 results[i] = r
+    # third pass (only when something failed): an obligation that no solver proved and that has no genuine counter-model is given
+    # to the solvers that ran out of time once more, with twice the budget and little else running - so that a verdict does not
+    # depend on how busy the machine was
+    again = [i for i, r in enumerate(results) if r.ob.expect == 'unsat' and r.verdict in ('refuted', 'unknown')
+             and not any(v == 'sat' for _, v, _ in r.tried) and any(v == 'timeout' for _, v, _ in r.tried)]
+
+    def third(i):
+        r = results[i]
+        ob = obligations[i]
+        late = [n for n, v, _ in r.tried if v == 'timeout']
+        path = os.path.join(workdir, 'retry_%d_%d.smt2' % (i, next(_file_ctr)))
+        with open(path, 'w') as fh:
+            fh.write(texts[i])
+        try:
+            for name, cmd in [SOLVERS[2], SOLVERS[0]]:
+                if name not in late or (name.startswith('cvc5') and '(lambda' in texts[i]):
+                    continue
+                v, out, secs = run_solver(name, cmd, path, 2 * budget)
+                r.tried.append((name + ' (retry)', v, round(secs, 3)))
+                r.seconds += secs
+                if v == 'unsat':
+                    r.verdict = 'discharged'
+                    r.solver = name + ' (second attempt, doubled budget)'
+                    r.model = ''
+                    break
+                if v == 'sat':
+                    r.verdict = 'refuted'
+                    r.solver = name
+                    r.model = out[:20000]
+                    break
+        finally:
+            try:
+                os.unlink(path)
+            except OSError:
+                pass
+        return r
+    if again and not os.environ.get('VERIF_NO_RETRY'):
+        with ThreadPoolExecutor(max_workers=max(2, jobs // 3)) as ex:
+            list(ex.map(third, again[:40]))
     if own:
         try:
             os.rmdir(workdir)
